@@ -848,7 +848,16 @@ impl File {
 
             // Check capacity
             let current_len = ctx.fs.file_len(&path);
-            let write_end = offset + buf.len() as u64;
+            let write_end = match offset.checked_add(buf.len() as u64) {
+                Some(end) => end,
+                None => {
+                    // POSIX: EFBIG/EINVAL. Nothing has been logged yet.
+                    return Err(Error::new(
+                        ErrorKind::InvalidInput,
+                        "write would extend past the maximum file offset",
+                    ));
+                }
+            };
             let additional = write_end.saturating_sub(current_len);
             if additional > 0 {
                 ctx.fs.check_space(additional).map_err(Error::other)?;
@@ -930,10 +939,28 @@ impl std::io::Seek for File {
         let new_pos = match pos {
             std::io::SeekFrom::Start(offset) => offset as i64,
             std::io::SeekFrom::End(offset) => {
-                file_len.ok_or_else(|| Error::new(ErrorKind::NotFound, "file not found"))? as i64
-                    + offset
+                let len = file_len
+                    .ok_or_else(|| Error::new(ErrorKind::NotFound, "file not found"))?
+                    as i64;
+                match len.checked_add(offset) {
+                    Some(p) => p,
+                    None => {
+                        return Err(Error::new(
+                            ErrorKind::InvalidInput,
+                            "invalid seek: position overflows",
+                        ))
+                    }
+                }
             }
-            std::io::SeekFrom::Current(offset) => *cursor as i64 + offset,
+            std::io::SeekFrom::Current(offset) => match (*cursor as i64).checked_add(offset) {
+                Some(p) => p,
+                None => {
+                    return Err(Error::new(
+                        ErrorKind::InvalidInput,
+                        "invalid seek: position overflows",
+                    ))
+                }
+            },
         };
 
         if new_pos < 0 {
